@@ -18,7 +18,9 @@ def run(tier):
             for op0 in (range(9) if split else [-1]):
                 conds.append(Cond("h_parse_hist.py", "history_independent", to, twin="reach" if (target == 0 and op0 in (-1, 0) and spec in ("amb", "prefix")) else None,
                                   path_timeout=to / 2, env={"H_SPEC": spec, "H_OPS": str(nops), "H_TARGET": str(target), "H_OP0": str(op0)}))
-    run.run_conditions(conds, conformance_harnesses=["h_parse_hist.py"])
+    # API level: what Fandango.parse() filters by must not depend on earlier fuzz()/init_population() calls with extra constraints
+    conds.append(Cond("h_api.py", "calls_are_independent", to, twin="reach", env={"H_CALLS": "2" if tier == "quick" else "3"}))
+    run.run_conditions(conds, conformance_harnesses=["h_parse_hist.py", "h_api.py"])
     run.encoded = ["Parser.parse_forest/parse_multiple/parse/_parse_forest/collapse"] + PARSER_FUNCS
     run.extra["source_sha256_16"] = source_fingerprint(PARSER_FILES)
     run.bounds = {"history": "symbolic sequence of request codes 0..8 (first tree, full forest, abandoned iteration, prefix mode, other start "
